@@ -749,3 +749,37 @@ def rule_annotation_pairing_sites(check, rule):
                                     'annotation text without its evaluation context (EmptyAnnotation)' % (norm(c.func)[:40], raw, norm(kws[raw])[:40], up),
                                     key=key, witness='partial(f, x=1) for def f(x: T): evaluated() drops the annotation of x')
     check.floor(rule, 'construction sites copying an annotation', n, 1)
+
+
+def rule_upgrade_idempotent(check, rule):
+    """C14.R3b / C15.R4c: `_upgrade(inst, ...)` of both upgraded classes hands an already upgraded object back unchanged.
+    `_upgrade_parameters_with_warning` and `replace(parameters=...)` run *mixed* lists through it; re-building an upgraded
+    parameter from the call's (empty) function/sources arguments strips its provenance and evaluation wrapper."""
+    repo = check.repo
+    for cname in UPGRADED:
+        ci = repo.cls('%s:%s' % (SIG, cname))
+        m = ci.methods.get('_upgrade')
+        key = '%s|_upgrade|idempotent' % ci.key
+        if m is None:
+            check.violation(rule, '%s:%d %s' % (ci.module.relpath, ci.node.lineno, ci.key), '%s has no _upgrade' % cname, key=key)
+            continue
+        check.analysed(m)
+        it = Interp(repo, Policy())
+        paths = it.run(m)
+        check.absorb(it)
+        pos = m.params()[0]
+        inst = ('P', pos[1]) if len(pos) > 1 else None
+        ok = False
+        for p in paths:
+            if p.status != 'return':
+                continue
+            guard = any(a[0] == 'isinstance' and a[1] == inst and pol for a, pol in p.lits)
+            if guard and p.value == inst:
+                ok = True
+        if ok:
+            check.holds(rule, site_of(m, m.node), '%s._upgrade returns an instance of the class unchanged' % cname, key=key)
+        else:
+            check.violation(rule, site_of(m, m.node), '%s._upgrade has no "already upgraded -> return it" path: an upgraded object passed through it '
+                            '(mixed parameter lists in replace(parameters=...) / UpgradedSignature(...)) is rebuilt from the empty function and '
+                            'sources of that call and loses its provenance and upgraded annotation' % cname, key=key,
+                            witness='sig.replace(parameters=[*sig.parameters.values(), inspect.Parameter(...)]) keeps the old parameters intact')
